@@ -226,6 +226,7 @@ CASES = {"basis": case_basis, "history": case_history}
 
 def run(r) -> None:
     quick = r.tier == "quick"
+    r.bind_model(only=[f"gen_{k}_pyst_kernel_{d}d" for k in ("set_fixed_val", "elementwise_copy", "elementwise_complex_product") for d in (2, 3)])
     s2 = range(2, 6) if quick else range(2, 8)
     s3 = range(2, 4) if quick else range(2, 6)
     shapes2 = list(itertools.product(s2, s2))
